@@ -34,6 +34,7 @@ func init() {
 	verifKinds["c18.codec_rt"] = verifC18CodecRT
 	verifKinds["c18.codec_unknown"] = verifC18CodecUnknown
 	verifKinds["c18.codec_hist"] = verifC18CodecHist
+	verifKinds["c18.codec_keep"] = verifC18CodecKeep
 	verifKinds["c18.alias_http"] = verifC18AliasHTTP
 }
 
@@ -663,6 +664,111 @@ func verifC18CodecHist(args []vsx) vsx {
 				res = vS("marshal-err")
 			} else if r3 := decode(stable, want); string(r3.b) != "ok" {
 				res = r3
+			}
+		}
+		out = append(out, res)
+	}
+	return vL(out...)
+}
+
+// c18.codec_keep: the history of c18.codec_hist, but EVERY output (Marshal, MarshalAppend into a
+// buffer of the call's own, MarshalStable) is kept and decoded only after the last call of the
+// history: a returned byte slice must not be a view of memory that a later call writes.
+func verifC18CodecKeep(args []vsx) vsx {
+	codec := verifC18Codec(args[0].i)
+	family, allowAny := args[1].i, args[0].i == 0
+	var obj proto.Message
+	fresh := func(t verifC18Tree) proto.Message {
+		if family == 1 {
+			st := &structpb.Struct{}
+			verifC18SyncStruct(st, t)
+			return st
+		}
+		return verifC18Build(t, false, allowAny)
+	}
+	if family == 1 {
+		obj = &structpb.Struct{}
+	} else {
+		obj = &conformancev1.ClientCompatRequest{}
+	}
+	type appender interface {
+		MarshalAppend([]byte, any) ([]byte, error)
+		MarshalStable(any) ([]byte, error)
+	}
+	type kept struct {
+		want    proto.Message
+		failed  bool
+		outs    [][]byte // views exactly as returned
+		prefixN int
+	}
+	var keep []kept
+	prefix := []byte("prefix")
+	for i, step := range args[2].l {
+		k, t := step.l[0].i, verifC18ParseTree(step.l[1])
+		if family == 1 {
+			verifC18SyncStruct(obj.(*structpb.Struct), t)
+		} else {
+			verifC18Sync(obj.(*conformancev1.ClientCompatRequest), t, allowAny)
+		}
+		want := fresh(t)
+		if !proto.Equal(obj, want) {
+			return vErr("harness-sync")
+		}
+		if k >= 1 {
+			proto.Size(obj)
+		}
+		if k == 2 {
+			continue
+		}
+		entry := kept{want: want, prefixN: len(prefix)}
+		data, err := codec.Marshal(obj)
+		if err != nil {
+			entry.failed = true
+			keep = append(keep, entry)
+			continue
+		}
+		entry.outs = append(entry.outs, data)
+		if app, ok := codec.(appender); ok {
+			// the destination is the call's own: no spare capacity (odd steps) or plenty (even steps)
+			dst := make([]byte, len(prefix), len(prefix)+(i%2)*4096)
+			copy(dst, prefix)
+			appended, err := app.MarshalAppend(dst, obj)
+			if err != nil || !bytes.HasPrefix(appended, prefix) {
+				entry.failed = true
+			} else {
+				entry.outs = append(entry.outs, appended)
+			}
+			stable, err := app.MarshalStable(obj)
+			if err != nil {
+				entry.failed = true
+			} else {
+				entry.outs = append(entry.outs, stable)
+			}
+		}
+		keep = append(keep, entry)
+	}
+	// only now: read every output again
+	out := []vsx{}
+	for _, entry := range keep {
+		if entry.failed {
+			out = append(out, vS("marshal-err"))
+			continue
+		}
+		res := vS("ok")
+		for j, data := range entry.outs {
+			if j == 1 {
+				if !bytes.HasPrefix(data, prefix) {
+					res = vS("ok-differs")
+					break
+				}
+				data = data[entry.prefixN:]
+			}
+			got := obj.ProtoReflect().New().Interface()
+			err := codec.Unmarshal(data, got)
+			r := verifC18CodecResult(err, got, entry.want)
+			if string(r.b) != "ok" {
+				res = r
+				break
 			}
 		}
 		out = append(out, res)
